@@ -30,6 +30,10 @@ func DistanceHaversine(p1, p2 orb.Point) float64 {
 	dLat2Sin := math.Sin(dLat / 2)
 	dLon2Sin := math.Sin(dLon / 2)
 	a := dLat2Sin*dLat2Sin + math.Cos(deg2rad(p2[1]))*math.Cos(deg2rad(p1[1]))*dLon2Sin*dLon2Sin
+	if a > 1 {
+		// antipodal points, rounding can push a just above 1
+		a = 1
+	}
 
 	return 2.0 * orb.EarthRadius * math.Atan2(math.Sqrt(a), math.Sqrt(1-a))
 }
